@@ -58,7 +58,7 @@ def mc_part(pid, tier):
         wit[w] = "reached at depth %d" % r.depth
     if pid in ("C06", "C09"):
         # the local date goes back once (another time zone) while time goes on - MC_Rotation!MCZone
-        zcfg = f"MC_Rot_{pid}_zone.cfg"
+        zcfg = f"MC_Rot_{pid}_zone.cfg" if tier == "quick" else f"MC_Rot_{pid}_zone_thorough.cfg"
         z = C.tlc_must_pass(C.run_tlc("MC_Rotation", zcfg, coverage=True, timeout=1800, xmx="16g"), zcfg)
         if z.violation:
             raise C.ToolFailure(f"the rotation model itself violates {z.violation} under {zcfg}:\n{z.out[-3000:]}")
